@@ -84,7 +84,7 @@ func TestVerifC09PruneCrashPrefixes(t *testing.T) {
 			t.Fatal(err)
 		}
 		defer e.Close()
-		e.gopts.Compression = rapid.SampledFrom([]repository.CompressionMode{repository.CompressionAuto, repository.CompressionOff, repository.CompressionMax}).Draw(t, "compression")
+		e.gopts.Compression = rapid.SampledFrom([]repository.CompressionMode{repository.CompressionAuto, repository.CompressionAuto, repository.CompressionOff, repository.CompressionOff, repository.CompressionFastest, repository.CompressionFastest, repository.CompressionMax}).Draw(t, "compression")
 		if err := e.Init(h.Version); err != nil {
 			t.Fatal(err)
 		}
